@@ -201,6 +201,15 @@ theorem C12_sim_history (c : SContent) (ops : List SimOp) (s0 s : SimState) (out
     GoodOuts c ops outs :=
   sim_history Generated.glue C12_glue_generated c ops s0 s outs h0 hr
 
+/-- **no needless compilation.**  After any history, if the closure the integrator holds remembers the model's current
+    cache object (nothing was edited since it was compiled), the next Jacobian call does not compile again: the
+    conversion and `lambdify` run once per change of the model, not once per call. -/
+theorem C12_no_needless_recompile (c : SContent) (ops : List SimOp) (s0 s : SimState) (outs : List SimOut)
+    (h0 : simInitG Generated.glue c = .ok s0) (hr : runG Generated.glue s0 ops = .ok (s, outs))
+    (cl : JacClosure) (ver : Nat) (hj : s.jac = some (cl, ver)) (hver : ver = s.version) :
+    s.recompilesG Generated.glue = false :=
+  no_needless_recompile Generated.glue s (sim_history_inv Generated.glue C12_glue_generated c ops s0 s outs h0 hr) cl ver hj hver
+
 /-- why watching the parameter VALUES alone (the closure before the repair of F-C12-5) was enough for the Simulator's
     own methods: after parameter updates only (`ParUpd`: same declarations, a parameter keeps its value, gets another
     one, or — if it was given by an initial assignment — gets a plain one), an equal tuple of plain-parameter values
